@@ -156,13 +156,13 @@ func (b *RecordBatch) decode(pd packetDecoder) (err error) {
 		return err
 	}
 
-	numRecs, err := pd.getArrayLength()
+	// the records that follow may be compressed, so their count cannot be
+	// checked against the bytes left (as getArrayLength does)
+	recCount, err := pd.getInt32()
 	if err != nil {
 		return err
 	}
-	if numRecs >= 0 {
-		b.Records = make([]*Record, numRecs)
-	}
+	numRecs := int(recCount)
 
 	bufSize := int(batchLen) - recordBatchOverhead
 	recBuffer, err := pd.getRawBytes(bufSize)
@@ -182,6 +182,14 @@ func (b *RecordBatch) decode(pd packetDecoder) (err error) {
 	recBuffer, err = decompress(b.Codec, recBuffer)
 	if err != nil {
 		return err
+	}
+
+	// every record takes at least one byte
+	if numRecs > len(recBuffer) {
+		return PacketDecodingError{fmt.Sprintf("batch of %d bytes cannot hold %d records", len(recBuffer), numRecs)}
+	}
+	if numRecs >= 0 {
+		b.Records = make([]*Record, numRecs)
 	}
 
 	b.recordsLen = len(recBuffer)
